@@ -480,8 +480,44 @@ func (s *sut) applies(p *model.AuthorizationPolicy) bool {
 	return true
 }
 
+// customDenies: a CUSTOM policy delegates to its extension provider (taken to allow here). It is
+// enforced as DENY (documented fail-closed behaviour) when its provider is not defined in the mesh
+// config, or when several providers are used for the workload while the multi-provider feature is
+// off. Dry-run CUSTOM policies have no effect.
+func customDenies(s *sut, r *request) bool {
+	provs := map[string]bool{}
+	for i := range s.policies {
+		p := &s.policies[i]
+		if s.applies(p) && p.Spec.Action == authpb.AuthorizationPolicy_CUSTOM {
+			provs[p.Spec.GetProvider().GetName()] = true
+		}
+	}
+	known := func(n string) bool {
+		for _, k := range s.providers {
+			if k == n {
+				return true
+			}
+		}
+		return false
+	}
+	for i := range s.policies {
+		p := &s.policies[i]
+		if !s.applies(p) || p.Spec.Action != authpb.AuthorizationPolicy_CUSTOM || p.Annotations["istio.io/dry-run"] == "true" {
+			continue
+		}
+		bad := (len(provs) > 1 && !s.multi) || !known(p.Spec.GetProvider().GetName())
+		if bad && policyMatches(p, r) {
+			return true
+		}
+	}
+	return false
+}
+
 func specDecision(s *sut, r *request) bool {
 	specBundle = s.bundle
+	if customDenies(s, r) {
+		return false
+	}
 	allowExists, allowMatch := false, false
 	for i := range s.policies {
 		p := &s.policies[i]
@@ -524,6 +560,33 @@ func (s *sut) untranslatable() bool {
 						return true
 					}
 				case aUnknown:
+					return true
+				}
+			}
+		}
+	}
+	return false
+}
+
+// usesHTTPOnly: some policy carries a field that cannot be expressed on a TCP filter chain (hosts,
+// methods, paths, request headers, JWT attributes).
+func (s *sut) usesHTTPOnly() bool {
+	for i := range s.policies {
+		for _, rule := range s.policies[i].Spec.Rules {
+			for _, f := range rule.GetFrom() {
+				if src := f.GetSource(); src != nil && len(src.RequestPrincipals)+len(src.NotRequestPrincipals) > 0 {
+					return true
+				}
+			}
+			for _, t := range rule.GetTo() {
+				if o := t.GetOperation(); o != nil &&
+					len(o.Hosts)+len(o.NotHosts)+len(o.Methods)+len(o.NotMethods)+len(o.Paths)+len(o.NotPaths) > 0 {
+					return true
+				}
+			}
+			for _, c := range rule.GetWhen() {
+				switch attrOfKey(c.Key) {
+				case aHeader, aReqPrincipal, aAudiences, aPresenter, aClaim:
 					return true
 				}
 			}
